@@ -203,21 +203,21 @@ func Chtimes(name string, a, m time.Time) error { return os.Chtimes(name, a, m) 
 func Executable() (string, error)                { return os.Executable() }
 
 func Getenv(key string) string {
-	if sched.Active() && EnvGet != nil {
+	if EnvGet != nil {
 		v, _ := EnvGet(key)
 		return v
 	}
 	return os.Getenv(key)
 }
 func Setenv(key, val string) error {
-	if sched.Active() && EnvSet != nil {
+	if EnvSet != nil {
 		EnvSet(key, val)
 		return nil
 	}
 	return os.Setenv(key, val)
 }
 func Environ() []string {
-	if sched.Active() && EnvList != nil {
+	if EnvList != nil {
 		return EnvList()
 	}
 	return os.Environ()
@@ -226,7 +226,7 @@ func Environ() []string {
 type exitPanic struct{ Code int }
 
 func Exit(code int) {
-	if sched.Active() && ExitHook != nil {
+	if ExitHook != nil {
 		ExitHook(code)
 		return
 	}
